@@ -33,7 +33,13 @@ type ChurnCfg struct {
 	LeaveBias    int    `json:"leave_bias"`
 	MaxNodes     int    `json:"max_nodes"`
 	Leases       bool   `json:"leases"`
+	// Ballast: this many write-once keys ("bl0000"...) are stored through the ring before the
+	// churn starts and read back once each after quiescence: every hand-over then moves
+	// hundreds of keys at once instead of a handful (batching seams, partial transfers)
+	Ballast int `json:"ballast,omitempty"`
 }
+
+func BallastKey(i int) string { return fmt.Sprintf("bl%04d", i) }
 
 type OpKind int
 
@@ -318,6 +324,19 @@ func RunChurnKV(cfg ChurnCfg, scratch string) *ChurnResult {
 		}
 		leaseStart = time.Now()
 	}
+	if cfg.Ballast > 0 {
+		br := rand.New(rand.NewSource(cfg.Seed + 4242))
+		for i := 0; i < cfg.Ballast; i++ {
+			o := OpRec{Client: 900, Seq: i, Kind: OpPut, Key: BallastKey(i), Arg: BallastKey(i) + "/v"}
+			for a := 0; a < 400; a++ {
+				o.Attempt = a
+				if out := c.exec(br, o); out.Err == "" {
+					break
+				}
+				time.Sleep(time.Millisecond)
+			}
+		}
+	}
 	var wg sync.WaitGroup
 	var stopChurn atomic.Bool
 	var abandoned atomic.Int64
@@ -559,6 +578,23 @@ func RunChurnKV(cfg ChurnCfg, scratch string) *ChurnResult {
 						time.Sleep(2 * time.Millisecond)
 					}
 					_ = fr
+				}
+			}
+		}
+		// the ballast: each key read back once, through a rotating live node
+		if live := lab.Live(); cfg.Ballast > 0 && len(live) > 0 {
+			for i := 0; i < cfg.Ballast; i++ {
+				o := OpRec{Client: 1000, Kind: OpGet, Key: BallastKey(i), Final: true}
+				for a := 0; a < 50; a++ {
+					o.Attempt = a
+					out := c.execOn(live[i%len(live)], o)
+					if out.Err == "" {
+						break
+					}
+					if out.Timeout {
+						time.Sleep(50 * time.Millisecond)
+					}
+					time.Sleep(2 * time.Millisecond)
 				}
 			}
 		}
